@@ -773,6 +773,9 @@ func (s *Sess) run() {
 	if s.eng.nilcheckAll {
 		s.nilcheck = true
 	}
+	if s.ct != nil && s.ct.Opts["nonilcheck"] != "" {
+		s.nilcheck = false
+	}
 	s.collectDebugRefs()
 	s.assignOrdinals()
 	s.findLoops()
